@@ -321,7 +321,6 @@ class LinearPaths:
       a = gfapy.SegmentEnd(b).inverted()
       if self._progress:
         self._progress_log("merge_linear_paths", 0.95)
-    merged.vlevel = merged_vlevel
     if isinstance(merged.name, list):
       merged.name = "_".join(merged.name)
     ortag = merged.get("or")
@@ -346,6 +345,7 @@ class LinearPaths:
         factor = merged.length / (total_cut+merged.length)
       for count_tag,count in self.__sum_of_counts(segpath,factor).items():
         merged.set(count_tag, count)
+    merged.vlevel = merged_vlevel
     return merged, first_reversed, last_reversed
 
   def __link_merged(self, merged_name, segment_end, is_reversed):
